@@ -279,7 +279,7 @@ TMetrics ==
    Whatever the interleaving, one period's printed figures are consistent with each other: an address
    enters its per-type set, its country count and its NAT set in ONE critical section, so the
    per-country counts add up to the total, the known types do not exceed it, and the NAT sets hold
-   at least one and at most `total` addresses when the total is not zero. *)
+   at least one address when the total is not zero. *)
 RECURSIVE SumN(_, _)
 SumN(q, i) == IF i > Len(q) THEN 0 ELSE q[i].n + SumN(q, i + 1)
 RECURSIVE SumTypes(_, _)
@@ -289,8 +289,7 @@ MidRight(m) ==
       nats3 == m["log:snowflake-ips-nat-restricted"] + m["log:snowflake-ips-nat-unrestricted"] + m["log:snowflake-ips-nat-unknown"]
   IN /\ SumN(m.cc, 1) = total
      /\ SumTypes(m, KnownTypes) <= total
-     /\ nats3 <= total
-     /\ (total > 0 => nats3 >= 1)
+     /\ (total > 0 => nats3 >= 1)    \* (no upper bound: counting an address under every NAT type it polled with would be as good)
 TMid == Is("metrics-mid") /\ MidRight(Ev.m) /\ UNCHANGED vars /\ Keep /\ Adv
 
 (* A scenario whose client polls were byte-identical (same offer, NAT type and fingerprint, as an AMP
